@@ -42,6 +42,10 @@ def enc(v, t):
         return 'tt'
     if t == 'arr':
         return '(v_id (%d, %d, %d)%%Z)' % tuple(v)
+    if t == 'hdr':
+        r, c, sl, ic = [Fr(x) for x in v[:4]]
+        rest = v[4] if len(v) > 4 else 7
+        return '(mkHdr (%s, %s) %s %s (%d)%%Z)' % (enc(r, 'Q'), enc(c, 'Q'), enc(sl, 'Q'), enc(ic, 'Q'), rest)
     if is_t(t, 'tuple'):
         if len(t[1]) == 0:
             return 'tt'
@@ -63,6 +67,8 @@ def chk_of(t):
         return 'chk_b'
     if t in ('tail', 'none'):
         return 'chk_unit'
+    if t == 'hdr':
+        return 'chk_hdr'
     if is_t(t, 'tuple'):
         if len(t[1]) == 0:
             return 'chk_unit'
@@ -87,6 +93,11 @@ def to_py(v, t):
         import numpy as np
         n = int(v[0] * v[1] * v[2])
         return (np.arange(n, dtype=np.int64) + 1).reshape(tuple(v))
+    if t == 'hdr':
+        def num(x):
+            return int(x) if (isinstance(x, int) or (len(v) > 5 and v[5] == 'int' and Fr(x).denominator == 1)) else float(x)
+        return {'PixelSpacing': (float(v[0]), float(v[1])), 'RescaleSlope': num(v[2]), 'RescaleIntercept': num(v[3]),
+                'ConvolutionKernel': 'STANDARD', 'XRayTubeCurrent': 160}
     if is_t(t, 'tuple'):
         return tuple(to_py(x, tt) for x, tt in zip(v, t[1]))
     if is_t(t, 'list'):
@@ -113,6 +124,15 @@ def canon_result(r, t):
         return bool(r)
     if t in ('tail', 'none'):
         return None
+    if t == 'hdr':
+        if not isinstance(r, dict):
+            raise TypeError('header expected')
+        others = {k: x for k, x in r.items() if k not in ('PixelSpacing', 'RescaleSlope', 'RescaleIntercept')}
+        same = others == {'ConvolutionKernel': 'STANDARD', 'XRayTubeCurrent': 160} and \
+            list(r.keys()) == ['PixelSpacing', 'RescaleSlope', 'RescaleIntercept', 'ConvolutionKernel', 'XRayTubeCurrent']
+        sp = r['PixelSpacing']
+        return (canon_result(sp[0], 'Q'), canon_result(sp[1], 'Q'), canon_result(r['RescaleSlope'], 'Q'),
+                canon_result(r['RescaleIntercept'], 'Q'), 7 if same else 8)
     if is_t(t, 'tuple'):
         if len(t[1]) == 0:
             return ()
@@ -171,6 +191,10 @@ def run_impl(fns, cases):
         params = [(p, tt(t)) for p, t in f['params']]
         ret = tt(f['ret_ty'])
         pyargs = [to_py(a, t) for a, (_, t) in zip(c.args, params)]
+        voxel = [i for i, (pn, t) in enumerate(params) if pn == 'img' and t == 'Q']
+        if voxel:
+            import numpy as _np
+            pyargs[voxel[0]] = _np.array([[[int(c.args[voxel[0]])]]], dtype=_np.int16)
         is_arr = ret == 'arr'
         if is_arr:
             ret = ('tuple', (('tuple', ('Z', 'Z', 'Z')), ('list', 'Z')))
@@ -178,6 +202,10 @@ def run_impl(fns, cases):
         try:
             r = pyf(*pyargs)
             c.kind = 'ok'
+            if voxel:
+                if str(r.dtype) != 'int16' or r.shape != (1, 1, 1):
+                    raise TypeError('voxel function changed dtype / shape: %s %s' % (r.dtype, r.shape))
+                r = int(r.ravel()[0])
             if is_arr:
                 if r.ndim != 3:
                     raise TypeError('result is not 3-D')
